@@ -16,6 +16,7 @@ func init() {
 			r.Fail("UNRESOLVED", "-", "-", "rules", "-", err.Error())
 			return
 		}
+		RunSibling(p, r, "C01")
 		ve.RunTargets("C01", r, "pass", "cover", "guard-len", "err")
 		r.RequireMin("V-PASS", 7*10)
 		r.RequireMin("V-COVER", 7*6)
@@ -30,6 +31,7 @@ func init() {
 			r.Fail("UNRESOLVED", "-", "-", "rules", "-", err.Error())
 			return
 		}
+		RunSibling(p, r, "C02")
 		ve.RunTargets("C02", r, "pass", "cover", "guard-len", "err")
 		r.RequireMin("V-PASS", 7*28)
 		r.RequireMin("V-COVER", 7*8)
@@ -58,6 +60,7 @@ func init() {
 			r.Fail("UNRESOLVED", "-", "-", "rules", "-", err.Error())
 			return
 		}
+		RunSibling(p, r, "C18")
 		ve.RunTargets("C18", r, "pass", "cover", "err")
 		r.RequireMin("V-PASS", 7*10)
 		r.RequireMin("V-COVER", 7*10)
